@@ -229,31 +229,43 @@ structure BookAcc where
   last : Option Nat := none
   any : Bool := false
 
+/-- one iteration of the booking loop of `bookResources` -/
+def bookOne (e : Env) (t : Nat) (w : Walk) (a : BookAcc) (r : Nat) : BookAcc :=
+  let res := bookResource e a.σ t w r
+  if res.2 > 0 then { σ := res.1, total := max a.total res.2, last := some r, any := true }
+  else { a with σ := res.1 }
+
+def bookAll (e : Env) (σ : St) (t : Nat) (w : Walk) (sel : List Nat) : BookAcc :=
+  sel.foldl (bookOne e t w) { σ := σ, last := w.last }
+
+/-- team gate: with more than one selected resource all must be available (and within task limits) -/
+def teamGateFails (e : Env) (σ : St) (t : Nat) (w : Walk) (sel : List Nat) : Bool :=
+  decide ((e.taskD t).effort > 0) && decide (sel.length > 1) &&
+    !(sel.all (fun r => available e σ r w.cur && taskLimitsOk e σ t w.cur r))
+
+/-- on the first successful booking of a forward effort task: `start := t(cur) + offset` -/
+def markStart (e : Env) (σ : St) (t : Nat) (w : Walk) : St :=
+  if decide ((e.taskD t).effort > 0) && w.done == 0 && (σ.tst t).forward then
+    σ.setT t { σ.tst t with start := some (e.time w.cur + (if w.offset > 0 then w.offset.floor else 0)) }
+  else σ
+
+def selectedOf (e : Env) (σ : St) (t : Nat) (w : Walk) : List Nat :=
+  match w.selected with
+  | some s => s
+  | none => selectBest e σ (e.taskD t).alloc (e.taskD t).alt (e.taskD t).effort w.cur
+
 /-- `TaskScenario.bookResources()` -/
 def bookResources (e : Env) (σ : St) (t : Nat) (w : Walk) : St × Walk :=
-  let d := e.taskD t
-  if !d.hasAlloc then (σ, w)
+  if !(e.taskD t).hasAlloc then (σ, w)
   else
-    let sel := match w.selected with
-      | some s => s
-      | none => selectBest e σ d.alloc d.alt d.effort w.cur
-    let w := { w with selected := some sel }
-    if sel.isEmpty then (σ, w)
-    else if d.effort > 0 && sel.length > 1 &&
-        !(sel.all (fun r => available e σ r w.cur && taskLimitsOk e σ t w.cur r)) then (σ, w)
+    let sel := selectedOf e σ t w
+    let w' : Walk := { w with selected := some sel }
+    if sel.isEmpty then (σ, w')
+    else if teamGateFails e σ t w' sel then (σ, w')
     else
-      let acc := sel.foldl (fun (a : BookAcc) r =>
-          let (σ', g) := bookResource e a.σ t w r
-          if g > 0 then { σ := σ', total := max a.total g, last := some r, any := true }
-          else { a with σ := σ' }) { σ := σ, last := w.last }
-      if acc.any then
-        let σ1 :=
-          if d.effort > 0 && w.done == 0 && (acc.σ.tst t).forward then
-            let st := e.time w.cur + (if w.offset > 0 then w.offset.floor else 0)
-            acc.σ.setT t { acc.σ.tst t with start := some st }
-          else acc.σ
-        (σ1, { w with done := w.done + acc.total, last := acc.last })
-      else (acc.σ, { w with last := acc.last })
+      let acc := bookAll e σ t w' sel
+      if acc.any then (markStart e acc.σ t w', { w' with done := w'.done + acc.total, last := acc.last })
+      else (acc.σ, { w' with last := acc.last })
 
 /-- Python `round()` on the exact value: half to even -/
 def roundHalfEven (x : Rat) : Int :=
@@ -261,37 +273,39 @@ def roundHalfEven (x : Rat) : Int :=
   let r := x - f
   if r < 1/2 then f else if r > 1/2 then f + 1 else if f % 2 == 0 then f else f + 1
 
+/-- release the tail of task `t` in slot `cur` on every selected member other than `r` -/
+def releaseOthers (σ : St) (t : Nat) (cur : Int) (r : Nat) (need : Rat) (sel : List Nat) : St :=
+  sel.foldl (fun (acc : St) m =>
+    if m == r then acc
+    else
+      match usageOf (acc.led.get m cur).usage t with
+      | none => acc
+      | some secs => { acc with led := acc.led.set m cur ((acc.led.get m cur).release t (min need secs)) }) σ
+
+/-- seconds of the final slot the task needs (clamped to the slot and to what it booked there) -/
+def needSecs (e : Env) (σ : St) (t : Nat) (w : Walk) (before : Rat) (r : Nat) : Rat :=
+  let eff := (e.resD r).eff
+  let need0 := if eff > 0 then ((e.taskD t).effort - before) / (eff / 3600) else (e.G : Rat)
+  let booked := (usageOf (σ.led.get r w.cur).usage t).getD (e.G : Rat)
+  min (min need0 (e.G : Rat)) booked
+
 /-- `_calculatePreciseEndTimeAndRelease(effort, before, forward)`: returns the date and the new state -/
 def finishTask (e : Env) (σ : St) (t : Nat) (w : Walk) (before : Rat) (fwd : Bool) : St × Int :=
-  let d := e.taskD t
-  let G : Rat := e.G
   match w.last with
   | none =>
     -- no resource was ever booked (cannot happen for effort > 0 finishing); mirror the fallback
-    let need := min ((d.effort - before) * 3600) G
+    let need := min (((e.taskD t).effort - before) * 3600) (e.G : Rat)
     (σ, if fwd then e.time w.cur + roundHalfEven need else e.time w.cur + e.G - roundHalfEven need)
   | some r =>
-    let eff := (e.resD r).eff
-    let need0 := if eff > 0 then (d.effort - before) / (eff / 3600) else G
-    let need1 := min need0 G
     let s := σ.led.get r w.cur
-    let booked := (usageOf s.usage t).getD G
     let usedBefore := match usageOf s.usage t with
       | some b => s.used - b
       | none => 0
-    let need := min need1 booked
+    let need := needSecs e σ t w before r
     let rounded := roundHalfEven (usedBefore + need)
     let date := if fwd then e.time w.cur + rounded else e.time w.cur + e.G - rounded
-    -- release the tail on every selected member (the last booked one first, as the code does)
     let σ1 : St := { σ with led := σ.led.set r w.cur (s.release t need) }
-    let σ2 := (w.selected.getD []).foldl (fun (acc : St) m =>
-        if m == r then acc
-        else
-          let sm := acc.led.get m w.cur
-          match usageOf sm.usage t with
-          | none => acc
-          | some secs => { acc with led := acc.led.set m w.cur (sm.release t (min need secs)) }) σ1
-    (σ2, date)
+    (releaseOthers σ1 t w.cur r need (w.selected.getD []), date)
 
 /-- `TaskScenario.scheduleSlot()`; the Bool is the loop condition (True = go on) -/
 def scheduleSlot (e : Env) (σ : St) (t : Nat) (w : Walk) : St × Walk × Bool :=
@@ -319,21 +333,26 @@ def scheduleSlot (e : Env) (σ : St) (t : Nat) (w : Walk) : St × Walk × Bool :
       (σ2.setT t (if ts.forward then { ts2 with stop := some date } else { ts2 with start := some date }), w1, false)
     else (σ1, w1, true)
 
+/-- bookkeeping after a slot that did not finish the task: remember the first booked slot of a
+    backward walk, move the cursor -/
+def advance (fwd : Bool) (w w1 : Walk) : Walk :=
+  { w1 with
+    firstBooked := if !fwd && w1.firstBooked.isNone && decide (w1.done > w.done) then some w1.cur else w1.firstBooked,
+    cur := w1.cur + (if fwd then 1 else -1) }
+
 /-- the `while self.scheduleSlot(): …` loop; the Bool is False for a run-away task -/
 def walkLoop (e : Env) (t : Nat) (fwd : Bool) : Nat → St → Walk → St × Walk × Bool
   | 0, σ, w => (σ, w, false)
   | f + 1, σ, w =>
-    let (σ1, w1, cont) := scheduleSlot e σ t w
-    if !cont then
+    let r := scheduleSlot e σ t w
+    if !r.2.2 then
       -- the slot in which the task finished may also be the first one it booked
-      let fb := if !fwd && w1.firstBooked.isNone && decide (w1.done > w.done) then some w1.cur else w1.firstBooked
-      (σ1, { w1 with firstBooked := fb }, true)
+      let fb := if !fwd && r.2.1.firstBooked.isNone && decide (r.2.1.done > w.done) then some r.2.1.cur else r.2.1.firstBooked
+      (r.1, { r.2.1 with firstBooked := fb }, true)
     else
-      let fb := if !fwd && w1.firstBooked.isNone && decide (w1.done > w.done) then some w1.cur else w1.firstBooked
-      let cur' := w1.cur + (if fwd then 1 else -1)
-      let w2 := { w1 with firstBooked := fb, cur := cur' }
-      if cur' < 0 || cur' > e.upper then (σ1, w2, false)
-      else walkLoop e t fwd f σ1 w2
+      let w2 := advance fwd w r.2.1
+      if w2.cur < 0 || w2.cur > e.upper then (r.1, w2, false)
+      else walkLoop e t fwd f r.1 w2
 
 /-- `_isResourceAvailable`: some allocated resource (primaries then alternatives) is on shift -/
 def anyOnShift (e : Env) (t : Nat) (i : Int) : Bool :=
@@ -356,6 +375,35 @@ def successors (e : Env) (t : Nat) : List Nat :=
   (List.range e.tasks.size).filter (fun s =>
     (e.taskD s).leaf && s != t && (e.taskD s).allDeps.any (fun dp => targets.contains dp.target))
 
+/-- forward bound: the latest of `base` and every dependency's (start | end) + gap -/
+def earliestStart (σ : St) (deps : List Dep) (base : Int) : Int :=
+  deps.foldl (fun acc dp =>
+    match (if dp.onstart then (σ.tst dp.target).start else (σ.tst dp.target).stop) with
+    | some dt => max acc (dt + dp.gap)
+    | none => acc) base
+
+/-- slot of the bound and the offset of the bound inside that slot -/
+def cursorOf (e : Env) (earliest : Int) : Int × Rat :=
+  (e.idx earliest, if earliest > e.time (e.idx earliest) then ((earliest - e.time (e.idx earliest) : Int) : Rat) else 0)
+
+/-- backward deadline when the task has no end of its own -/
+def latestEnd (e : Env) (σ : St) (t : Nat) : Int :=
+  let d := e.taskD t
+  let l1 := d.allDeps.foldl (fun acc dp =>
+    if dp.onstart then
+      match (σ.tst dp.target).start with
+      | some ps => min acc (ps - dp.gap)
+      | none => acc
+    else acc) e.stop
+  (successors e t).foldl (fun acc s =>
+    match (σ.tst s).start with
+    | none => acc
+    | some ss =>
+      -- the largest gap among the finish-to-start entries naming `t` or an enclosing container
+      let g := (e.taskD s).allDeps.foldl (fun m dp =>
+        if dp.hasOpts && (e.taskChain t).contains dp.target && !dp.onstart then max m dp.gap else m) 0
+      min acc (ss - g)) l1
+
 /-- cursor initialisation of `schedule()`: returns (cur, offset) -/
 def initCursor (e : Env) (σ : St) (t : Nat) : Int × Rat :=
   let d := e.taskD t
@@ -364,76 +412,59 @@ def initCursor (e : Env) (σ : St) (t : Nat) : Int × Rat :=
     match ts.start with
     | some s =>
       if d.startProvided then (e.idx s, 0)
-      else
-        let earliest := d.allDeps.foldl (fun acc dp =>
-          let q := σ.tst dp.target
-          match (if dp.onstart then q.start else q.stop) with
-          | some dt => max acc (dt + dp.gap)
-          | none => acc) (max e.start s)
-        let si := e.idx earliest
-        (si, if earliest > e.time si then ((earliest - e.time si : Int) : Rat) else 0)
-    | none =>
-      let earliest := d.allDeps.foldl (fun acc dp =>
-        let q := σ.tst dp.target
-        match (if dp.onstart then q.start else q.stop) with
-        | some dt => max acc (dt + dp.gap)
-        | none => acc) e.start
-      let si := e.idx earliest
-      (si, if earliest > e.time si then ((earliest - e.time si : Int) : Rat) else 0)
+      else cursorOf e (earliestStart σ d.allDeps (max e.start s))
+    | none => cursorOf e (earliestStart σ d.allDeps e.start)
   else
     let endDate := match ts.stop with
       | some x => x
-      | none =>
-        let l1 := d.allDeps.foldl (fun acc dp =>
-          if dp.onstart then
-            match (σ.tst dp.target).start with
-            | some ps => min acc (ps - dp.gap)
-            | none => acc
-          else acc) e.stop
-        (successors e t).foldl (fun acc s =>
-          match (σ.tst s).start with
-          | none => acc
-          | some ss =>
-            -- the largest gap among the finish-to-start entries naming `t` or an enclosing container
-            let g := (e.taskD s).allDeps.foldl (fun m dp =>
-              if dp.hasOpts && (e.taskChain t).contains dp.target && !dp.onstart then max m dp.gap else m) 0
-            min acc (ss - g)) l1
+      | none => latestEnd e σ t
     let c0 := e.idx endDate - 1
     let fuel := (e.size.toNat + 2)
     if d.effort > 0 && d.hasAlloc then (backToWork e (anyOnShift e t) fuel c0, 0)
     else (backToWork e e.projWork fuel c0, 0)
 
+/-- effort > 0 without allocations, forward, no start: the cursor moves to the first project
+    working slot and `start` is set there (the task then runs away: nothing can be booked) -/
+def preStartCursor (e : Env) (σ : St) (t : Nat) (c0 : Int) : Int :=
+  let d := e.taskD t
+  let ts := σ.tst t
+  if ts.forward && ts.start.isNone && !(d.milestone || d.effort == 0) && !d.hasAlloc then
+    fwdToWork e (e.size.toNat + 2) c0
+  else c0
+
+def preStartT (e : Env) (σ : St) (t : Nat) (c0 : Int) : TSt :=
+  let d := e.taskD t
+  let ts := σ.tst t
+  if ts.forward && ts.start.isNone && !(d.milestone || d.effort == 0) && !d.hasAlloc then
+    { ts with start := some (e.time (fwdToWork e (e.size.toNat + 2) c0)) }
+  else ts
+
+/-- the attribute updates at the end of `schedule()` -/
+def finalT (e : Env) (t : Nat) (fwd : Bool) (c1 : Int) (ts1 : TSt) (w1 : Walk) : TSt :=
+  let d := e.taskD t
+  let ts2 :=
+    if fwd then
+      if ts1.start.isNone then { ts1 with start := some (e.time c1) } else ts1
+    else
+      let a := if ts1.start.isNone then { ts1 with start := some (e.time w1.cur) } else ts1
+      let endSlot := w1.firstBooked.getD c1
+      if d.effort > 0 || a.stop.isNone then { a with stop := some (e.time (endSlot + 1)) } else a
+  { ts2 with done := true, scheduled := true }
+
 /-- `TaskScenario.schedule()`; Bool = return value -/
 def scheduleTask (e : Env) (σ : St) (t : Nat) : St × Bool :=
-  let d := e.taskD t
   let ts := σ.tst t
   if ts.done then (σ, true)
   else
-    let (c0, off) := initCursor e σ t
-    let isMs := d.milestone || d.effort == 0
-    -- non-effort, non-milestone forward task without start: cannot occur (effort == 0 ⇒ milestone);
-    -- effort > 0 without allocations: find the first project working slot and set start
-    let (c1, σ0) :=
-      if ts.forward && ts.start.isNone && !isMs && !d.hasAlloc then
-        let c := fwdToWork e (e.size.toNat + 2) c0
-        (c, σ.setT t { ts with start := some (e.time c) })
-      else (c0, σ)
-    let w0 : Walk := { cur := c1, offset := off }
+    let ic := initCursor e σ t
+    let c1 := preStartCursor e σ t ic.1
+    let σ0 := σ.setT t (preStartT e σ t ic.1)
     -- the cursor must lie inside the horizon before the first slot is tried
     if c1 < 0 || c1 > e.upper then (σ0.setT t { σ0.tst t with runaway := true }, false)
     else
-    let (σ1, w1, ok) := walkLoop e t ts.forward (e.size.toNat + 3) σ0 w0
-    if !ok then (σ1.setT t { σ1.tst t with runaway := true }, false)
-    else
-      let ts1 := σ1.tst t
-      let ts2 :=
-        if ts.forward then
-          if ts1.start.isNone then { ts1 with start := some (e.time c1) } else ts1
-        else
-          let a := if ts1.start.isNone then { ts1 with start := some (e.time w1.cur) } else ts1
-          let endSlot := w1.firstBooked.getD c1
-          if d.effort > 0 || a.stop.isNone then { a with stop := some (e.time (endSlot + 1)) } else a
-      (σ1.setT t { ts2 with done := true, scheduled := true }, true)
+      let r := walkLoop e t ts.forward (e.size.toNat + 3) σ0 { cur := c1, offset := ic.2 }
+      if !r.2.2 then (r.1.setT t { r.1.tst t with runaway := true }, false)
+      else (r.1.setT t (finalT e t ts.forward c1 (r.1.tst t) r.2.1), true)
 
 /-! ### readiness -/
 
@@ -453,38 +484,46 @@ def ready (e : Env) (σ : St) (t : Nat) : Bool :=
 def minOpt (a : Option Int) (b : Int) : Option Int := match a with | none => some b | some x => some (min x b)
 def maxOpt (a : Option Int) (b : Int) : Option Int := match a with | none => some b | some x => some (max x b)
 
-/-- `_updateContainerTaskStatus` (children-first after the fix: task list walked backwards) -/
-def updateContainers (e : Env) (σ : St) : St :=
-  (List.range e.tasks.size).reverse.foldl (fun (acc : St) t =>
-    let d := e.taskD t
-    if d.leaf || (acc.tst t).scheduled || d.children.isEmpty then acc
-    else if !(d.children.all (fun c => (acc.tst c).scheduled)) then acc
-    else
-      let mn := d.children.foldl (fun m c => match (acc.tst c).start with | some s => minOpt m s | none => m) none
-      let mx := d.children.foldl (fun m c => match (acc.tst c).stop with | some s => maxOpt m s | none => m) none
-      let ts := acc.tst t
-      let ts := match mn with | some s => { ts with start := some s } | none => ts
-      let ts := match mx with | some s => { ts with stop := some s } | none => ts
-      acc.setT t { ts with scheduled := true }) σ
+def childMinStart (σ : St) (children : List Nat) : Option Int :=
+  children.foldl (fun m c => match (σ.tst c).start with | some s => minOpt m s | none => m) none
+def childMaxEnd (σ : St) (children : List Nat) : Option Int :=
+  children.foldl (fun m c => match (σ.tst c).stop with | some s => maxOpt m s | none => m) none
 
-/-- `scheduleContainer` for one container (children already finished) -/
-def scheduleContainer (e : Env) (σ : St) (t : Nat) : St :=
+/-- new attributes of container `t` in one pass of `_updateContainerTaskStatus` -/
+def rollupT (e : Env) (σ : St) (t : Nat) : TSt :=
   let d := e.taskD t
   let ts := σ.tst t
-  if ts.done || d.leaf then σ
+  if d.leaf || ts.scheduled || d.children.isEmpty then ts
+  else if !(d.children.all (fun c => (σ.tst c).scheduled)) then ts
+  else
+    let ts := match childMinStart σ d.children with | some s => { ts with start := some s } | none => ts
+    let ts := match childMaxEnd σ d.children with | some s => { ts with stop := some s } | none => ts
+    { ts with scheduled := true }
+
+/-- `_updateContainerTaskStatus` (children-first after the fix: task list walked backwards) -/
+def updateContainers (e : Env) (σ : St) : St :=
+  (List.range e.tasks.size).reverse.foldl (fun (acc : St) t => acc.setT t (rollupT e acc t)) σ
+
+/-- new attributes of container `t` in `scheduleContainer` (children already finished) -/
+def containerT (e : Env) (σ : St) (t : Nat) : TSt :=
+  let d := e.taskD t
+  let ts := σ.tst t
+  if ts.done || d.leaf then ts
   else
     -- abort if a child is unscheduled or lacks a date
-    if d.children.any (fun c => !(σ.tst c).scheduled || (σ.tst c).start.isNone || (σ.tst c).stop.isNone) then σ
+    if d.children.any (fun c => !(σ.tst c).scheduled || (σ.tst c).start.isNone || (σ.tst c).stop.isNone) then ts
     else
-      let mn := d.children.foldl (fun m c => match (σ.tst c).start with | some s => minOpt m s | none => m) none
-      let mx := d.children.foldl (fun m c => match (σ.tst c).stop with | some s => maxOpt m s | none => m) none
+      let mn := childMinStart σ d.children
+      let mx := childMaxEnd σ d.children
       let ts1 := match mn with
         | some s => if ts.start.isNone || decide (ts.start.getD s > s) then { ts with start := some s } else ts
         | none => ts
       let ts2 := match mx with
         | some s => if ts1.stop.isNone || decide (ts1.stop.getD s < s) then { ts1 with stop := some s } else ts1
         | none => ts1
-      if mn.isSome && mx.isSome then σ.setT t { ts2 with done := true, scheduled := true } else σ.setT t ts2
+      if mn.isSome && mx.isSome then { ts2 with done := true, scheduled := true } else ts2
+
+def scheduleContainer (e : Env) (σ : St) (t : Nat) : St := σ.setT t (containerT e σ t)
 
 /-- `finishScenario`: children-first = task list backwards (children are created after parents) -/
 def finishScenario (e : Env) (σ : St) : St :=
@@ -503,20 +542,21 @@ def inheritedEnd (e : Env) (σ : St) (t : Nat) : Option Int :=
     -- not); stop before t itself
     (rest.dropLast).foldl (fun acc x => match (σ.tst x).stop with | some v => some v | none => acc) (σ.tst root).stop
 
-def propagateContainerEnds (e : Env) (σ : St) : St :=
+def containerEndT (e : Env) (σ0 acc : St) (t : Nat) : TSt :=
   let leaves := (List.range e.tasks.size).filter (fun t => (e.taskD t).leaf)
-  let hasFsSucc := fun t => leaves.any (fun s => (e.taskD s).allDeps.any (fun dp => (e.taskChain t).contains dp.target && !dp.onstart))
-  let hasOnstart := fun t => (e.taskD t).allDeps.any (fun dp => dp.onstart)
-  (List.range e.tasks.size).foldl (fun (acc : St) t =>
-    let d := e.taskD t
-    if !d.leaf || d.parent.isNone then acc
-    else
-      let ts := acc.tst t
-      if !ts.forward && ts.stop.isNone && !hasFsSucc t && !hasOnstart t then
-        match inheritedEnd e σ t with
-        | some ce => acc.setT t { ts with stop := some ce }
-        | none => acc
-      else acc) σ
+  let hasFsSucc := leaves.any (fun s => (e.taskD s).allDeps.any (fun dp => (e.taskChain t).contains dp.target && !dp.onstart))
+  let hasOnstart := (e.taskD t).allDeps.any (fun dp => dp.onstart)
+  let d := e.taskD t
+  let ts := acc.tst t
+  if !d.leaf || d.parent.isNone then ts
+  else if !ts.forward && ts.stop.isNone && !hasFsSucc && !hasOnstart then
+    match inheritedEnd e σ0 t with
+    | some ce => { ts with stop := some ce }
+    | none => ts
+  else ts
+
+def propagateContainerEnds (e : Env) (σ : St) : St :=
+  (List.range e.tasks.size).foldl (fun (acc : St) t => acc.setT t (containerEndT e σ acc t)) σ
 
 /-- `_markTaskALAP` (DFS with a processed set; fuel = number of tasks squared is ample) -/
 def markAlap (e : Env) : Nat → List Nat → List Nat → St → St × List Nat
@@ -548,32 +588,33 @@ def propagateAlap (e : Env) (σ : St) : St :=
 def initState (e : Env) : St :=
   { ts := e.tasks.map (fun d => { start := d.start, stop := d.stop, forward := d.forward }) }
 
+def projAlapT (e : Env) (σ : St) (t : Nat) : TSt :=
+  let d := e.taskD t
+  if e.projAlap && d.leaf && !d.explicitMode then { σ.tst t with forward := false } else σ.tst t
+
 def prepare (e : Env) (σ : St) : St :=
-  let σ1 :=
-    if e.projAlap then
-      (List.range e.tasks.size).foldl (fun (acc : St) t =>
-        let d := e.taskD t
-        if d.leaf && !d.explicitMode then acc.setT t { acc.tst t with forward := false } else acc) σ
-    else σ
-  propagateContainerEnds e σ1
+  propagateContainerEnds e
+    ((List.range e.tasks.size).foldl (fun (acc : St) t => acc.setT t (projAlapT e acc t)) σ)
+
+def prepassT (e : Env) (σ : St) (t : Nat) : TSt :=
+  let d := e.taskD t
+  let ts := σ.tst t
+  if !d.leaf then ts
+  else
+    let start := if d.startProvided then ts.start else none
+    let stop := ts.stop
+    let implicit := (start.isSome || stop.isSome) && d.effort == 0
+    if d.milestone || implicit then
+      match start, stop with
+      | some s, none => { ts with stop := some s, scheduled := true }
+      | none, some x => { ts with start := some x, scheduled := true }
+      | some _, some _ => { ts with scheduled := true }
+      | none, none => ts
+    else ts
 
 /-- milestone pre-pass of `scheduleScenario` -/
 def milestonePrepass (e : Env) (σ : St) : St :=
-  (List.range e.tasks.size).foldl (fun (acc : St) t =>
-    let d := e.taskD t
-    if !d.leaf then acc
-    else
-      let ts := acc.tst t
-      let start := if d.startProvided then ts.start else none
-      let stop := ts.stop
-      let implicit := (start.isSome || stop.isSome) && d.effort == 0
-      if d.milestone || implicit then
-        match start, stop with
-        | some s, none => acc.setT t { ts with stop := some s, scheduled := true }
-        | none, some x => acc.setT t { ts with start := some x, scheduled := true }
-        | some _, some _ => acc.setT t { ts with scheduled := true }
-        | none, none => acc
-      else acc) σ
+  (List.range e.tasks.size).foldl (fun (acc : St) t => acc.setT t (prepassT e acc t)) σ
 
 def prioLe (e : Env) (a b : Nat) : Bool :=
   let pa := (e.taskD a).prio
